@@ -7,20 +7,21 @@ Definition lcg_m : Z := 2147483647.        (* 2^31 - 1 *)
 Definition lcg_a : Z := 48271.
 Definition two64 : Z := 18446744073709551616.
 
-(* `(multiplier * current + increment) % modulus` on u64.
-   dev profile: the multiplication panics on overflow; release profile: it wraps. *)
-Definition lcg_next_checked (cur : Z) : res Z :=
-  let p := lcg_a * cur in
-  if p <? two64 then Ok (p mod lcg_m) else Panic P_overflow.
-Definition lcg_next_wrap (cur : Z) : Z := ((lcg_a * cur) mod two64) mod lcg_m.
+(* `(multiplier * (current % modulus) + increment) % modulus` on u64: the state is reduced first,
+   so the product stays below 48271 * 2^31 and cannot overflow in either build profile. *)
+Definition lcg_next (cur : Z) : Z := (lcg_a * (cur mod lcg_m)) mod lcg_m.
+Definition lcg_next_checked (cur : Z) : res Z := Ok (lcg_next cur).
+Definition lcg_next_wrap (cur : Z) : Z := lcg_next cur.
 
 Section Random.
   Variable N : Num.
   Notation T := (T N).
 
-  (* `(self.current as f32 / (self.modulus - 1) as f32) * (max - min) + min` *)
-  Definition lcg_value (cur : Z) (lo hi : T) : T :=
+  (* `let value = (self.current as f32 / (self.modulus - 1) as f32) * (max - min) + min;
+      value.max(min).min(max)` *)
+  Definition lcg_raw (cur : Z) (lo hi : T) : T :=
     nadd N (nmul N (ndiv N (nofZ N cur) (nofZ N (lcg_m - 1))) (nsub N hi lo)) lo.
+  Definition lcg_value (cur : Z) (lo hi : T) : T := fminn (fmax (lcg_raw cur lo hi) lo) hi.
 
   (* generate: returns the new state and the value *)
   Definition generate_checked (cur : Z) (lo hi : T) : res (Z * T) :=
@@ -41,14 +42,14 @@ Section Random.
     do x <- nth_res l i; do y <- nth_res l j;
     Ok (set_nth (set_nth l i y) j x).
 
-  (* shuffle: for i in 0..len { j = generate(0, len) as usize; swap(i, j) } *)
+  (* shuffle: for i in 0..len { j = (generate(0, len) as usize).min(len - 1); swap(i, j) } *)
   Fixpoint shuffle_from {A} (wrap : bool) (fuel i : nat) (cur : Z) (l : list A)
     : res (Z * list A) :=
     match fuel with
     | O => Ok (cur, l)
     | S k =>
         do c <- (if wrap then Ok (lcg_next_wrap cur) else lcg_next_checked cur);
-        let j := Z.to_nat (ntoZ N (lcg_value c (nofZ N 0) (of_nat (length l)))) in
+        let j := Nat.min (Z.to_nat (ntoZ N (lcg_value c (nofZ N 0) (of_nat (length l))))) (length l - 1) in
         do l' <- swap l i j;
         shuffle_from wrap k (S i) c l'
     end.
